@@ -133,8 +133,22 @@ def node_factory():
     return lambda l, r, i: BinaryTreeNode(l, r)
 
 
+_SHARED = {}
+
+
 def drive_shape(rec, s, units, fac=None):
-    from mathy_core.layout import TreeLayout
+    from mathy_core.layout import TreeLayout as _TL
+
+    # one long-lived TreeLayout object lays out trees of all sizes and units in turn (state left
+    # on the layout object by an earlier, larger layout must not leak into the next result);
+    # every third layout uses a fresh object
+    if "obj" not in _SHARED:
+        _SHARED["obj"] = _TL()
+        _SHARED["n"] = 0
+
+    def TreeLayout():
+        _SHARED["n"] += 1
+        return _TL() if _SHARED["n"] % 3 == 0 else _SHARED["obj"]
 
     fac = fac or node_factory()
     shp = W9.shape_str(s)
